@@ -37,11 +37,9 @@ def build_e2e():
     od = C.BUILD + "/overlay"
     os.makedirs(od, exist_ok=True)
     gpath = od + "/e2e_scanned.go"
-    with open(gpath, "w") as f:
-        f.write("\n".join(gen) + "\n")
+    C.write_atomic(gpath, "\n".join(gen) + "\n")
     ov = od + "/e2e_overlay.json"
-    with open(ov, "w") as f:
-        json.dump({"Replace": {C.V + "/harness/root/cmd/e2e/scanned.go": gpath}}, f)
+    C.write_atomic(ov, json.dumps({"Replace": {C.V + "/harness/root/cmd/e2e/scanned.go": gpath}}))
     return C.build_harness("root", pkg="./cmd/e2e", extra=["-overlay", ov])
 
 
